@@ -700,6 +700,27 @@ def run(ctx):
         return
     th = ctx.thorough()
     ctx.level = "fault_enumeration"
+    if getattr(ctx, "replay", None):
+        body = json.load(open(ctx.replay))
+        if "scenario" not in body or "crash_index" not in body:
+            ctx.violation("replay file names no crash case", {"replay": ctx.replay}, no_input=True)
+            return
+        user = body.get("run_as_user")
+        user = None if user in (None, "self", "root") else user
+        k = body["crash_index"] if body.get("process") == "victim" else None
+        ck = body["crash_index"] if body.get("process") == "cleaner" else None
+        ka = bool(body.get("kill_after"))
+        ref = run_case(tdir, body["scenario"], user=user)
+        res = run_case(tdir, body["scenario"], k, ka and ck is None, ck, ka and ck is not None, user=user)
+        bad = judge(res, ref)
+        ctx.cov.update({"evaluations": 1, "rule": "replay of " + ctx.replay})
+        if bad:
+            ctx.violation("replay still fails: scenario %s, %s killed at gated call %d: %s" % (body["scenario"], body.get("process"), body["crash_index"], [b[0] for b in bad]),
+                          {"symptoms": bad, "survivor_after": res["phases"].get("after"), "survivor_probe": res["phases"].get("probe"),
+                           "how_to_rerun": replay_cmd(res)}, key=body.get("key"))
+        else:
+            ctx.log("replay passes: scenario %s, crash index %s: no symptom" % (body["scenario"], body["crash_index"]))
+        return
     scs = scenario_list(tdir)
     only = os.environ.get("C04_ONLY")
     if only:
